@@ -6,6 +6,7 @@ import (
 	"fmt"
 	"strings"
 	"sync"
+	"sync/atomic"
 	"time"
 
 	tea "github.com/charmbracelet/bubbletea"
@@ -40,6 +41,54 @@ func scenFinal(out *scenOut, r *rng, thorough bool) {
 	for _, u := range []int{2, 5} {
 		finalReleased(out, u, r.intn(2))
 	}
+	for _, u := range []int{1, 3} {
+		finalKilledDuringLastView(out, u, r.intn(2))
+	}
+}
+
+// finalKilledDuringLastView: the quit message has been handled (Run's result is decided: a
+// clean quit) and a Kill arrives while Run evaluates the final View. Run still reports the
+// quit, so the final view must be what the terminal shows.
+func finalKilledDuringLastView(out *scenOut, updates, shape int) {
+	ctl := newRecCtl()
+	buf := &safeBuffer{}
+	var quitSeen, killed int32
+	var run *progRun
+	ready := make(chan struct{})
+	ctl.viewOf = func(version, ups int) string {
+		if atomic.LoadInt32(&quitSeen) == 1 && atomic.CompareAndSwapInt32(&killed, 0, 1) {
+			<-ready
+			run.p.Kill() // (returns when the teardown it started is complete)
+		}
+		return finalView(shape, ups-1) // (-1: the size message)
+	}
+	filter := func(_ tea.Model, m tea.Msg) tea.Msg {
+		if _, ok := m.(tea.QuitMsg); ok {
+			atomic.StoreInt32(&quitSeen, 1)
+		}
+		return m
+	}
+	desc := fmt.Sprintf("kill-during-final-view updates=%d shape=%d", updates, shape)
+	run = startProgram(ctl, buf, tea.WithInput(nil), tea.WithoutSignalHandler(), tea.WithFPS(60), tea.WithFilter(filter))
+	close(ready)
+	run.p.Send(tea.WindowSizeMsg{Width: 80, Height: 24})
+	for k := 0; k < updates; k++ {
+		run.p.Send(userMsg{0, k})
+	}
+	run.p.Send(tea.Quit())
+	if !run.wait(8 * time.Second) {
+		out.fail(finding{Property: "C07", Class: "new", What: "Run did not return after quit (Kill during the final View)", Input: desc})
+		return
+	}
+	out.record(desc, fmt.Sprintf("killed-in-final-view updates=%d shape=%d", updates, shape))
+	if atomic.LoadInt32(&killed) != 1 {
+		return
+	}
+	if got := errClass(run.err); got != "nil" {
+		// the kill won after all: the final view is not promised
+		return
+	}
+	checkFinalScreen(out, desc, buf.String(), finalView(shape, updates), 80, 24)
 }
 
 // finalReleased: the program quits while its terminal is released (ReleaseTerminal without a
